@@ -12,10 +12,13 @@ import (
 
 	"github.com/elastos/Elastos.ELA/blockchain"
 	"github.com/elastos/Elastos.ELA/common"
+	"github.com/elastos/Elastos.ELA/common/config"
+	"github.com/elastos/Elastos.ELA/core/checkpoint"
 	"github.com/elastos/Elastos.ELA/core/types/payload"
 	crstate "github.com/elastos/Elastos.ELA/cr/state"
 	"github.com/elastos/Elastos.ELA/crypto"
 	"github.com/elastos/Elastos.ELA/dpos/state"
+	"github.com/elastos/Elastos.ELA/mempool"
 )
 
 // ---------------------------------------------------------------- key pool
@@ -103,9 +106,19 @@ func sigFor(id int, data []byte, ok bool, variant int, occ int) []byte {
 
 // ---------------------------------------------------------------- op parsing
 
+// arbiter kinds: o = origin (elected producer), c = CRC arbiter, C = CRC arbiter whose CR member
+// claimed its own DPoS node key, d / D = the same two but deposed (isNormal == false).
 type arb struct {
 	key    int
+	kind   byte
 	normal bool
+}
+
+// a key the node knows without it being a current arbiter: r = registered producer,
+// g = CRC arbiter of the chain configuration, u = current CR node key, x = next CR node key
+type known struct {
+	key   int
+	class byte
 }
 type vote struct {
 	signer                int
@@ -136,7 +149,25 @@ func parseArbs(s string) []arb {
 	var res []arb
 	for _, x := range strings.Split(s, ",") {
 		p := strings.Split(x, ":")
-		res = append(res, arb{atoi(p[0]), flag(p[1])})
+		if len(p[1]) != 1 || !strings.Contains("ocCdD", p[1]) {
+			panic("harness: bad arbiter kind " + p[1])
+		}
+		k := p[1][0]
+		res = append(res, arb{atoi(p[0]), k, k == 'o' || k == 'c' || k == 'C'})
+	}
+	return res
+}
+func parseKnown(s string) []known {
+	if s == "-" {
+		return nil
+	}
+	var res []known
+	for _, x := range strings.Split(s, ",") {
+		p := strings.Split(x, ":")
+		if len(p[1]) != 1 || !strings.Contains("rgux", p[1]) {
+			panic("harness: bad known class " + p[1])
+		}
+		res = append(res, known{atoi(p[0]), p[1][0]})
 	}
 	return res
 }
@@ -154,23 +185,64 @@ func parseVotes(s string) []vote {
 
 // ---------------------------------------------------------------- adapter
 
-func setArbiters(arbs []arb) {
+// one real state.Arbiters (with its State) for the whole run; every op resets the parts the
+// confirmation checks read.
+var (
+	arbParams *config.Configuration
+	arbiters  *state.Arbiters
+)
+
+func initArbiters() {
+	arbParams = config.GetDefaultParams()
+	var err error
+	arbiters, err = state.NewArbitrators(arbParams, nil, nil, nil, nil, nil, nil, nil, nil, checkpoint.NewManager(arbParams))
+	if err != nil {
+		panic("harness: NewArbitrators: " + err.Error())
+	}
+	blockchain.DefaultLedger = &blockchain.Ledger{Arbitrators: arbiters}
+}
+
+func setArbiters(arbs []arb, kn []known) {
 	members := make([]state.ArbiterMember, 0, len(arbs))
-	for i, a := range arbs {
+	arbiters.NodeOwnerKeys = map[string]string{}
+	arbiters.CurrentCRNodeOwnerKeys = map[string]string{}
+	arbiters.NextCRNodeOwnerKeys = map[string]string{}
+	arbParams.DPoSConfiguration.CRCArbiters = nil
+	for _, a := range arbs {
 		pk := pubOf(a.key)
+		hexKey := common.BytesToHexString(pk)
 		var m state.ArbiterMember
 		var err error
-		if a.normal && i%2 == 0 {
+		switch a.kind {
+		case 'o':
 			m, err = state.NewOriginArbiter(pk)
-		} else {
+			arbiters.NodeOwnerKeys[hexKey] = hexKey // elected producers are registered producers
+		case 'c', 'd':
 			m, err = state.NewCRCArbiter(pk, pk, &crstate.CRMember{}, a.normal)
+			arbParams.DPoSConfiguration.CRCArbiters = append(arbParams.DPoSConfiguration.CRCArbiters, hexKey)
+		default: // 'C', 'D': claimed DPoS node key
+			m, err = state.NewCRCArbiter(pk, pk, &crstate.CRMember{DPOSPublicKey: pk}, a.normal)
+			arbiters.CurrentCRNodeOwnerKeys[hexKey] = hexKey
 		}
 		if err != nil {
 			panic("harness: arbiter: " + err.Error())
 		}
 		members = append(members, m)
 	}
-	blockchain.DefaultLedger = &blockchain.Ledger{Arbitrators: &state.Arbiters{CurrentArbitrators: members}}
+	for _, k := range kn {
+		hexKey := common.BytesToHexString(pubOf(k.key))
+		switch k.class {
+		case 'r':
+			arbiters.NodeOwnerKeys[hexKey] = hexKey
+		case 'g':
+			arbParams.DPoSConfiguration.CRCArbiters = append(arbParams.DPoSConfiguration.CRCArbiters, hexKey)
+		case 'u':
+			arbiters.CurrentCRNodeOwnerKeys[hexKey] = hexKey
+		case 'x':
+			arbiters.NextCRNodeOwnerKeys[hexKey] = hexKey
+		}
+	}
+	arbiters.CurrentArbitrators = members
 }
 
 func sanityName(err error) string {
@@ -209,6 +281,33 @@ func contextName(err error) string {
 
 var bigArbiters = make([]state.ArbiterMember, 1<<21)
 
+// buildConfirm makes the real payload for block hash `bh` with real signatures as flagged.
+func buildConfirm(bh common.Uint256, sponsor int, ssig bool, votes []vote) *payload.Confirm {
+	var c payload.Confirm
+	c.Proposal = payload.DPOSProposal{Sponsor: pubOf(sponsor), BlockHash: bh, ViewOffset: uint32(len(votes))}
+	if sponsor >= malformedBase && ssig {
+		panic("harness: malformed sponsor cannot have a valid signature")
+	}
+	c.Proposal.Sign = sigFor(sponsor, c.Proposal.Data(), ssig, len(votes), 0)
+	ph := c.Proposal.Hash()
+	other := ph
+	other[0] ^= 0xff
+	seen := map[int]int{}
+	for i, v := range votes {
+		pv := payload.DPOSProposalVote{ProposalHash: ph, Signer: pubOf(v.signer), Accept: v.accept}
+		if !v.hashOk {
+			pv.ProposalHash = other
+		}
+		if v.signer >= malformedBase && v.sigOk {
+			panic("harness: malformed signer cannot have a valid signature")
+		}
+		pv.Sign = sigFor(v.signer, pv.Data(), v.sigOk, i, seen[v.signer])
+		seen[v.signer]++
+		c.Votes = append(c.Votes, pv)
+	}
+	return &c
+}
+
 func exec(t []string) string {
 	switch t[0] {
 	case "maj": // maj <n> <k>: GetArbitersMajorityCount with n current arbiters, HasArbitersMajorityCount(k)
@@ -216,42 +315,51 @@ func exec(t []string) string {
 		if n < 1 || n > len(bigArbiters) {
 			panic("harness: n out of range")
 		}
-		a := &state.Arbiters{CurrentArbitrators: bigArbiters[:n]}
+		arbiters.CurrentArbitrators = bigArbiters[:n]
 		h := 0
-		if a.HasArbitersMajorityCount(k) {
+		if arbiters.HasArbitersMajorityCount(k) {
 			h = 1
 		}
-		return fmt.Sprintf("%d %d", a.GetArbitersMajorityCount(), h)
-	case "confirm": // confirm <arbiters k:normal,…> <sponsor> <sponsorSigOk> <votes signer:accept:hashOk:sigOk,…>
-		arbs, sponsor, ssig, votes := parseArbs(t[1]), atoi(t[2]), flag(t[3]), parseVotes(t[4])
+		return fmt.Sprintf("%d %d", arbiters.GetArbitersMajorityCount(), h)
+	case "confirm": // confirm <arbiters key:kind,…> <known key:class,…> <sponsor> <sponsorSigOk> <votes signer:accept:hashOk:sigOk,…>
+		arbs, kn, sponsor, ssig, votes := parseArbs(t[1]), parseKnown(t[2]), atoi(t[3]), flag(t[4]), parseVotes(t[5])
 		if len(arbs) == 0 {
 			// zero current arbiters makes the real threshold fall back to the chain parameters; not modelled
 			panic("harness: empty arbiter set")
 		}
-		setArbiters(arbs)
-		var c payload.Confirm
-		c.Proposal = payload.DPOSProposal{Sponsor: pubOf(sponsor), BlockHash: common.Uint256{1, 2, 3, byte(sponsor)}, ViewOffset: uint32(len(votes))}
-		if sponsor >= malformedBase && ssig {
-			panic("harness: malformed sponsor cannot have a valid signature")
+		setArbiters(arbs, kn)
+		c := buildConfirm(common.Uint256{1, 2, 3, byte(sponsor)}, sponsor, ssig, votes)
+		return sanityName(blockchain.ConfirmSanityCheck(c)) + " " + contextName(blockchain.ConfirmContextCheck(c))
+	case "pool": // pool (<sponsor> <sponsorSigOk> <votes>)+ : BlockPool.AppendConfirm of each, all for one block hash
+		if (len(t)-1)%3 != 0 || len(t) < 4 {
+			panic("harness: pool op needs triples")
 		}
-		c.Proposal.Sign = sigFor(sponsor, c.Proposal.Data(), ssig, len(votes), 0)
-		ph := c.Proposal.Hash()
-		other := ph
-		other[0] ^= 0xff
-		seen := map[int]int{}
-		for i, v := range votes {
-			pv := payload.DPOSProposalVote{ProposalHash: ph, Signer: pubOf(v.signer), Accept: v.accept}
-			if !v.hashOk {
-				pv.ProposalHash = other
+		bp := mempool.NewBlockPool(arbParams)
+		bh := common.Uint256{9, 9, 9}
+		var made []*payload.Confirm
+		var parts []string
+		for i := 1; i < len(t); i += 3 {
+			c := buildConfirm(bh, atoi(t[i]), flag(t[i+1]), parseVotes(t[i+2]))
+			made = append(made, c)
+			_, _, err := bp.AppendConfirm(c)
+			res := "no-block" // a sane confirmation waits in the pool for its block
+			if err == nil {
+				res = "other:nil"
+			} else if err.Error() != "there is no block in pool when confirming block" {
+				res = sanityName(err)
 			}
-			if v.signer >= malformedBase && v.sigOk {
-				panic("harness: malformed signer cannot have a valid signature")
+			cached := "-"
+			if got, ok := bp.GetConfirm(bh); ok {
+				cached = "?"
+				for j, m := range made {
+					if m == got {
+						cached = strconv.Itoa(j)
+					}
+				}
 			}
-			pv.Sign = sigFor(v.signer, pv.Data(), v.sigOk, i, seen[v.signer])
-			seen[v.signer]++
-			c.Votes = append(c.Votes, pv)
+			parts = append(parts, res+":"+cached)
 		}
-		return sanityName(blockchain.ConfirmSanityCheck(&c)) + " " + contextName(blockchain.ConfirmContextCheck(&c))
+		return strings.Join(parts, " ")
 	}
 	panic("harness: unknown op " + t[0])
 }
@@ -265,14 +373,31 @@ func b2s(b bool) string {
 	return "0"
 }
 
-func genConfirm(g *hx.Gen) {
-	r := g.R
+type scenario struct {
+	arbs    []arb
+	kn      []known
+	sponsor int
+	ssig    bool
+	votes   []vote
+}
+
+func fmtVotes(votes []vote) string {
+	if len(votes) == 0 {
+		return "-"
+	}
+	p := make([]string, len(votes))
+	for i, v := range votes {
+		p[i] = fmt.Sprintf("%d:%s:%s:%s", v.signer, b2s(v.accept), b2s(v.hashOk), b2s(v.sigOk))
+	}
+	return strings.Join(p, ",")
+}
+
+func genScenario(r *hx.Rand) scenario {
 	n := 1 + r.Intn(40)
 	if r.Chance(30) {
 		n = []int{1, 2, 3, 4, 5, 6, 12, 24, 36}[r.Intn(9)]
 	}
-	// arbiters: distinct keys 0..n-1 shuffled from the pool, a few abnormal, rarely a duplicate key
-	perm := make([]int, poolSize-8)
+	perm := make([]int, poolSize)
 	for i := range perm {
 		perm[i] = i
 	}
@@ -280,21 +405,42 @@ func genConfirm(g *hx.Gen) {
 		j := r.Intn(i + 1)
 		perm[i], perm[j] = perm[j], perm[i]
 	}
+	// current arbiters: elected producers and CRC arbiters (with / without a claimed DPoS node
+	// key), some CRC members deposed; rarely a duplicated key
+	deposedPct := 7
+	if r.Chance(25) {
+		deposedPct = 35
+	}
 	arbs := make([]arb, n)
 	for i := range arbs {
-		arbs[i] = arb{perm[i], !r.Chance(7)}
+		kind := "oooocC"[r.Intn(6)]
+		if r.Chance(deposedPct) {
+			kind = "dD"[r.Intn(2)]
+		}
+		arbs[i] = arb{perm[i], kind, kind == 'o' || kind == 'c' || kind == 'C'}
 	}
 	if n > 1 && r.Chance(4) {
 		arbs[n-1].key = arbs[0].key
 	}
-	foreign := func() int {
+	// keys the node knows although they are not current arbiters
+	nk := r.Intn(30)
+	kn := make([]known, nk)
+	for i := range kn {
+		kn[i] = known{perm[n+i], "rrgux"[r.Intn(5)]}
+	}
+	stranger := func() int {
 		if r.Chance(25) {
 			return malformedBase + r.Intn(5)
 		}
-		return perm[n+r.Intn(len(perm)-n)]
+		return perm[n+nk+r.Intn(len(perm)-n-nk)]
+	}
+	foreign := func() int {
+		if nk > 0 && r.Chance(70) {
+			return kn[r.Intn(nk)].key
+		}
+		return stranger()
 	}
 	maj := 2 * n / 3
-	// number of votes around the threshold
 	var k int
 	switch r.Intn(6) {
 	case 0:
@@ -316,11 +462,30 @@ func genConfirm(g *hx.Gen) {
 		j := r.Intn(i + 1)
 		order[i], order[j] = order[j], order[i]
 	}
+	if r.Chance(50) { // entitled arbiters first: deposed ones only when needed
+		j := 0
+		for i := range order {
+			if arbs[order[i]].normal {
+				order[i], order[j] = order[j], order[i]
+				j++
+			}
+		}
+	}
 	var votes []vote
 	for i := 0; i < k && i < n; i++ {
 		votes = append(votes, vote{arbs[order[i]].key, true, true, true})
 	}
-	// perturbations
+	if nk > 0 && r.Chance(12) {
+		// a few current arbiters topped up over the threshold by known-but-not-current keys
+		cur := r.Intn(maj + 1)
+		if cur > len(votes) {
+			cur = len(votes)
+		}
+		votes = votes[:cur]
+		for i := 0; len(votes) <= maj+r.Intn(2) && i < nk; i++ {
+			votes = append(votes, vote{kn[i].key, true, true, true})
+		}
+	}
 	for p := r.Intn(4); p > 0 && len(votes) > 0; p-- {
 		i := r.Intn(len(votes))
 		switch r.Intn(9) {
@@ -358,19 +523,43 @@ func genConfirm(g *hx.Gen) {
 	case 1:
 		ssig = false
 	}
-	as := make([]string, n)
-	for i, a := range arbs {
-		as[i] = fmt.Sprintf("%d:%s", a.key, b2s(a.normal))
+	return scenario{arbs, kn, sponsor, ssig, votes}
+}
+
+func genConfirm(g *hx.Gen) {
+	sc := genScenario(g.R)
+	as := make([]string, len(sc.arbs))
+	for i, a := range sc.arbs {
+		as[i] = fmt.Sprintf("%d:%c", a.key, a.kind)
 	}
-	vs := "-"
-	if len(votes) > 0 {
-		p := make([]string, len(votes))
-		for i, v := range votes {
-			p[i] = fmt.Sprintf("%d:%s:%s:%s", v.signer, b2s(v.accept), b2s(v.hashOk), b2s(v.sigOk))
+	ks := "-"
+	if len(sc.kn) > 0 {
+		p := make([]string, len(sc.kn))
+		for i, k := range sc.kn {
+			p[i] = fmt.Sprintf("%d:%c", k.key, k.class)
 		}
-		vs = strings.Join(p, ",")
+		ks = strings.Join(p, ",")
 	}
-	g.Emit("confirm %s %d %s %s", strings.Join(as, ","), sponsor, b2s(ssig), vs)
+	g.Emit("confirm %s %s %d %s %s", strings.Join(as, ","), ks, sc.sponsor, b2s(sc.ssig), fmtVotes(sc.votes))
+}
+
+// block pool: one to three confirmations for the same block hash, sane and forged in any order
+func genPool(g *hx.Gen) {
+	r := g.R
+	var parts []string
+	for i, m := 0, 1+r.Intn(3); i < m; i++ {
+		sc := genScenario(r)
+		if r.Chance(40) { // make it sane: what a valid confirmation looks like
+			sc.ssig = sc.sponsor < malformedBase
+			for j := range sc.votes {
+				if sc.votes[j].signer < malformedBase {
+					sc.votes[j].accept, sc.votes[j].hashOk, sc.votes[j].sigOk = true, true, true
+				}
+			}
+		}
+		parts = append(parts, fmt.Sprintf("%d %s %s", sc.sponsor, b2s(sc.ssig), fmtVotes(sc.votes)))
+	}
+	g.Emit("pool %s", strings.Join(parts, " "))
 }
 
 func gen(g *hx.Gen) {
@@ -379,23 +568,40 @@ func gen(g *hx.Gen) {
 	lim := g.N(1<<13, 1<<20)
 	for n := 1; n <= lim; n++ {
 		m := 2 * n / 3
-		g.Emit("maj %d %d", n, m+r.Intn(3)-1+1)
+		g.Emit("maj %d %d", n, m+r.Intn(3))
 	}
 	for i := 0; i < g.N(5000, 200000); i++ {
 		n := 1 + r.Intn(1<<21-1)
 		g.Emit("maj %d %d", n, 2*n/3+r.Intn(3))
 	}
-	for i := 0; i < g.N(2500, 60000); i++ {
+	for i := 0; i < g.N(3000, 60000); i++ {
 		genConfirm(g)
 	}
+	for i := 0; i < g.N(1500, 30000); i++ {
+		genPool(g)
+	}
+}
+
+func saneConf(ssig bool, votes []vote) bool {
+	if !ssig {
+		return false
+	}
+	for _, v := range votes {
+		if !(v.accept && v.hashOk && v.sigOk) {
+			return false
+		}
+	}
+	return true
 }
 
 // ---------------------------------------------------------------- oracle
 //
 // Judged on the implementation's verdict and the op line only: a confirmation
 // that passes both checks must consist of valid accepting votes for this
-// proposal by more than 2n/3 (integer arithmetic) distinct normal arbiters, and
-// its sponsor must be a normal arbiter with a valid proposal signature.
+// proposal by more than 2n/3 (integer arithmetic) distinct normal *current*
+// arbiters, and its sponsor must be a normal current arbiter with a valid
+// proposal signature.  The block pool may keep (and later hand to the chain,
+// which only re-checks the context) only confirmations that pass the sanity check.
 func oracle(t []string, out string) *hx.Violation {
 	switch t[0] {
 	case "maj":
@@ -404,11 +610,29 @@ func oracle(t []string, out string) *hx.Violation {
 		if len(f) == 2 && atoi(f[0]) != 2*n/3 {
 			return &hx.Violation{Kind: "majority-not-two-thirds", Detail: fmt.Sprintf("GetArbitersMajorityCount=%s for %d arbiters, 2n/3=%d", f[0], n, 2*n/3)}
 		}
+	case "pool":
+		if out == "panic" {
+			return nil
+		}
+		steps := strings.Fields(out)
+		for i, stp := range steps {
+			c := stp[strings.LastIndex(stp, ":")+1:]
+			if c == "-" {
+				continue
+			}
+			if c == "?" {
+				return &hx.Violation{Kind: "pool-cached-unknown-confirm", Detail: "the pool holds a confirmation that was never appended"}
+			}
+			j := atoi(c)
+			if j > i || !saneConf(flag(t[2+3*j]), parseVotes(t[3+3*j])) {
+				return &hx.Violation{Kind: "pool-cached-insane-confirm", Detail: fmt.Sprintf("after step %d the block pool holds confirmation %d, which fails the signature/accept/hash checks", i, j)}
+			}
+		}
 	case "confirm":
 		if out != "ok ok" {
 			return nil
 		}
-		arbs, sponsor, ssig, votes := parseArbs(t[1]), atoi(t[2]), flag(t[3]), parseVotes(t[4])
+		arbs, sponsor, ssig, votes := parseArbs(t[1]), atoi(t[3]), flag(t[4]), parseVotes(t[5])
 		normal := map[int]bool{}
 		for _, a := range arbs {
 			if a.normal {
@@ -418,7 +642,7 @@ func oracle(t []string, out string) *hx.Violation {
 		good := map[int]bool{}
 		for _, v := range votes {
 			if !(v.accept && v.hashOk && v.sigOk && normal[v.signer]) {
-				return &hx.Violation{Kind: "accepted-bad-vote", Detail: fmt.Sprintf("accepted although vote of %d is not a valid accepting vote of a normal arbiter for this proposal", v.signer)}
+				return &hx.Violation{Kind: "accepted-bad-vote", Detail: fmt.Sprintf("accepted although vote of %d is not a valid accepting vote of a normal current arbiter for this proposal", v.signer)}
 			}
 			good[v.signer] = true
 		}
@@ -426,7 +650,7 @@ func oracle(t []string, out string) *hx.Violation {
 			return &hx.Violation{Kind: "accepted-without-quorum", Detail: fmt.Sprintf("accepted with %d distinct valid signers of %d arbiters", len(good), len(arbs))}
 		}
 		if !ssig || !normal[sponsor] {
-			return &hx.Violation{Kind: "accepted-bad-sponsor", Detail: "accepted although the sponsor is not a normal arbiter with a valid proposal signature"}
+			return &hx.Violation{Kind: "accepted-bad-sponsor", Detail: "accepted although the sponsor is not a normal current arbiter with a valid proposal signature"}
 		}
 	}
 	return nil
@@ -434,12 +658,13 @@ func oracle(t []string, out string) *hx.Violation {
 
 func nontrivial(t []string, out string) bool {
 	if t[0] == "confirm" {
-		return t[4] != "-"
+		return t[5] != "-"
 	}
 	return true
 }
 
 func main() {
 	initPool()
+	initArbiters()
 	hx.Main(&hx.Prop{Name: "C25", Gen: gen, Exec: exec, Oracle: oracle, Nontrivial: nontrivial})
 }
